@@ -203,10 +203,12 @@ POOL = [
 S4_FULL = (1, b"abcde", 2.5, -3, 4, (5,))
 
 SPECIFIC = {
-    "char": [("py", bytes([v])) for v in (0, 1, 0x41, 0x7f, 0x80, 0xff)] + [("py", v) for v in (65, 255, 256)],
+    "char": [("py", bytes([v])) for v in (0, 1, 0x41, 0x7f, 0x80, 0xff)] + [("py", v) for v in (65, 255, 256)]
+            + [("cast", "char", bytes([v])) for v in (0, 1, 0x7f, 0x80, 0xc8, 0xff)],      # a cdata of the same type
     "wchar": [("py", s) for s in ("\x00", "a", "\x7f", "\x80", "\xff", "Ā", "퟿", "\ud800", "\udfff",
                                   "", "￿", "\U00010000", "\U0010ffff")]
-             + [("py", v) for v in (65, 0x110000)],
+             + [("py", v) for v in (65, 0x110000)]
+             + [("cast", "wchar_t", c) for c in ("\x00", "\x80", "\uffff", "\U00010000", "\U0010ffff")],
     "float": [("py", v) for v in (0.0, -2.25, 5e-324, 1e-320, 2.2250738585072014e-308, 1.7976931348623157e308,
                                   3.4028234663852886e38, 3.4028235677973366e38, 1e39, -1e39, 1e-46,
                                   1.401298464324817e-45, 7.006492321624085e-46, float("-inf"),
@@ -311,6 +313,10 @@ def alphabet(t, small=False):
             vals = sorted({lo - 1, lo, -1, 0, 1, hi, hi + 1, 2 ** 63, 2 ** 64, -2 ** 63 - 1} & set(vals))
         for v in vals:
             out.append(("int:below" if v < lo else "int:above" if v > hi else "int:in", ("py", v)))
+        if k == "int" and not small:
+            # cdata of the same type at its bounds (converted by a different branch than Python ints)
+            for v in sorted({lo, -1 if lo < 0 else 1, 0, hi}):
+                out.append(("cdata:same", ("cast", t, v)))
     else:
         key = t if k == "struct" else k
         sp = SPECIFIC[key]
